@@ -571,6 +571,14 @@ class XsdGen:
         return ss
 
 
+def iter_elems(g):
+    for x in g.items:
+        if isinstance(x, Group):
+            yield from iter_elems(x)
+        elif isinstance(x, ElemDecl):
+            yield x
+
+
 def sanitize_nillable(ct, seen, optional=False):
     """Keep the triggers of the open C02 findings about xsi:nil / mixed content out of the population
     (each has a dedicated probe in vf/props/c02.py): nillable only on elements that are always present
@@ -595,13 +603,19 @@ def sanitize_nillable(ct, seen, optional=False):
             c = c.base
         return False
 
-    def walk(g, opt):
+    decls = []
+
+    def walk(g, opt, rep=False):
         opt = opt or g.min == 0 or g.kind == "choice"
+        rep = rep or g.max != 1
         for x in g.items:
             if isinstance(x, Group):
-                walk(x, opt)
+                walk(x, opt, rep)
             elif isinstance(x, ElemDecl):
                 t = x.type
+                decls.append(x)
+                if rep:
+                    x.repeats = True  # (the field is a list although the element itself has maxOccurs=1: see DocGen.fill)
                 if x.nillable and (opt or mixed or x.min == 0 or x.fixed is not None or not isinstance(t, SimpleT)):
                     x.nillable = False  # (complex content that happens to be empty is written back as nil: C01's open finding nillable-field-object-without-content)
                 if mixed and (qname_typed(t) or (isinstance(t, ComplexT) and qname_content(t))):
@@ -613,6 +627,14 @@ def sanitize_nillable(ct, seen, optional=False):
 
     if ct.content is not None:
         walk(ct.content, False)
+    k, names = ct.base, [x.name for x in decls]
+    while k is not None:
+        if k.content is not None:
+            names += [x.name for x in iter_elems(k.content)]
+        k = k.base
+    for x in decls:
+        if names.count(x.name) > 1:
+            x.repeats = True  # (two particles of one name are merged into one list field)
     if ct.base is not None and mixed and ct.content is not None:
         # the elements an extension adds to a mixed base type are bound generically (open finding
         # C02/global-element-added-by-extension-of-mixed-type...): prefixes used only inside their text or attribute values are
@@ -1081,9 +1103,10 @@ class DocGen:
             if decl.nillable and rng.random() < 0.2:
                 el.set(f"{{{XSI}}}nil", "true")
                 return
-            if decl.default is not None and rng.random() < 0.3 and self.empty_defaults and not (decl.nillable and decl.max != 1):
-                # empty element: the default applies. (Not for repeating nillable elements: a list field carries no element
-                # default, and an empty value in a nillable field is read as nil - C01's open finding empty-string-in-nillable-field.)
+            if decl.default is not None and rng.random() < 0.3 and self.empty_defaults and not (decl.nillable and (decl.max != 1 or getattr(decl, "repeats", False))):
+                # empty element: the default applies. (Not for nillable elements that repeat - by their own maxOccurs, through a
+                # repeating group around them or a second particle of the same name: a list field carries no element default,
+                # and an empty value in a nillable field is read as nil - C01's open finding empty-string-in-nillable-field.)
                 return
             if decl.fixed is not None:
                 el.text = decl.fixed
